@@ -316,6 +316,8 @@ BASES = [
     '<setTextVector device="d" name="n" state="Ok" message="a &gt; b"><oneText name="e1">v1</oneText><oneText name="e2">v&amp;2</oneText></setTextVector>',
     '<setLightVector device="d" name="l" state="Alert"><oneLight name="l1">Ok</oneLight><oneLight name="l2">Busy</oneLight></setLightVector>',
     '<defNumberVector device="d" name="n" state="Idle" perm="rw"><defNumber name="x" format="%5.2f" min="0" max="9" step="1">1.5</defNumber></defNumberVector>',
+    # a BLOB vector cut anywhere (the one kind a receiver might be tempted to treat specially because it is usually long)
+    '<setBLOBVector device="d" name="b" state="Ok"><oneBLOB name="a" size="3" format=".x">QUJD</oneBLOB></setBLOBVector>',
 ]
 INVALID_WF = [
     '<setSwitchVector device="d" name="s" state="Ok"><oneSwitch name="a">Maybe</oneSwitch></setSwitchVector>',
